@@ -496,6 +496,12 @@ func report(prop, tier string, seed int, ck Check, tasks []*task, wall float64) 
 	}
 	// classify violations
 	os.MkdirAll(filepath.Join(verifDir, "replays"), 0o755)
+	// replay files of earlier runs of this property are stale once it has been re-checked
+	if old, _ := filepath.Glob(filepath.Join(verifDir, "replays", prop+"-*.json")); len(old) > 0 {
+		for _, f := range old {
+			os.Remove(f)
+		}
+	}
 	code := 0
 	seenDesc := map[string]bool{}
 	knownHit := map[int]bool{}
